@@ -15,7 +15,8 @@ package bt
 //@ func bt.VarInt.Bytes
 //@   fresh result
 //@   ensures[C01.varint_bytes_len] (= (len result) (spec.vlen v))
-//@   ensures[C01.varint_bytes] (= (bytes result 9) (spec.vi v))
+//@   opt bytes-bound 9
+//@   ensures[C01.varint_bytes] (= (bytes result) (spec.vi v))
 
 //@ func bt.LittleEndianBytes
 //@   bytes token
@@ -26,6 +27,7 @@ package bt
 //@ func bt.ReverseBytes
 //@   bytes array
 //@   fresh result
+//@   define (= (bytes result) (brev (bytes a)))
 //@   ensures[C01.rev_len] (= (len result) (len a))
 //@   ensures[C01.rev_content] (forall ((k Int)) (=> (and (<= 0 k) (< k (len a))) (= (at result k) (old (at a (- (- (len a) 1) k))))))
 //@   ensures[C01.rev_input_unchanged] (forall ((k Int)) (=> (and (<= 0 k) (< k (len a))) (= (at a k) (old (at a k)))))
@@ -368,3 +370,19 @@ package bt
 //@   requires (=> (not (nil? fees)) (spec.wf_quote fees))
 //@   requires (< (spec.sum_in tx) 18446744073709551616) (< (spec.sum_out tx) 18446744073709551616) (<= 0 (spec.sum_in tx)) (<= 0 (spec.sum_out tx))
 //@   ensures[C12.deficit] (=> (= err nil) (= r0 (ite (> (old (spec.sum_in tx)) (+ (old (spec.sum_out tx)) (spec.quoted fees (old (spec.est_std tx)) (old (spec.est_data tx))))) 0 (- (+ (old (spec.sum_out tx)) (spec.quoted fees (old (spec.est_std tx)) (old (spec.est_data tx)))) (old (spec.sum_in tx))))))
+
+// ---- wire serialisation (C01) ----
+//@ func bt.(*Input).Bytes
+//@   bytes token
+//@   fresh result
+//@   ensures[C01.input_bytes] (= (bytes result) (old (spec.in_bytes i clear)))
+//@ func bt.(*Output).Bytes
+//@   bytes token
+//@   requires (not (nil? (. o LockingScript)))
+//@   fresh result
+//@   ensures[C01.output_bytes] (= (bytes result) (old (spec.out_bytes o)))
+//@ func bt.(*Output).BytesForSigHash
+//@   bytes token
+//@   requires (not (nil? (. o LockingScript)))
+//@   fresh result
+//@   ensures[C02.output_sighash_bytes] (= (bytes result) (old (spec.out_bytes o)))
